@@ -117,7 +117,7 @@ FAMILIES["stream"] = {
                    62: "bytes written to the stream differ from the model's framing", 63: "panic outcome differs",
                    300: "C09: a state exchange cut before its end changed the receiving side",
                    301: "C12: the peer did not recover the complete message / state / payload from the stream",
-                   302: "C13: stream handler panicked", 303: "C13: undecodable stream changed membership", 304: "C13: connection left open",
+                   313: "C09: a side that vetoed / could not verify the exchange still handed the peer's application state to its delegate", 314: "C09: an exchange carrying another label changed the receiving side", 302: "C13: stream handler panicked", 303: "C13: undecodable stream changed membership", 304: "C13: connection left open",
                    305: "C13: declared size beyond the cap was not refused before reading the data",
                    306: "C14: tampered / foreign-key / removed-key stream had an effect", 307: "C16: stream carrying another label had an effect or got a reply",
                    308: "C16: a correctly labelled stream was not accepted (label header fragmented across reads)",
